@@ -4,7 +4,7 @@
 From Coq Require Import String Ascii List Bool Arith ZArith.
 Import ListNotations.
 Require Import Generated PyBase PyStr Lex Format Symbols Split SplitFacts SplitChunks SplitChunksFacts Merge ParseEq ParseEqFacts
-               ParseModel ParseModelFacts ParseModelExamples ParseContribFacts.
+               ParseModel ParseModelFacts ParseModelExamples ParseContribFacts FormatDecideFacts.
 Open Scope string_scope.
 
 Definition ordinary : string :=
@@ -46,3 +46,23 @@ Proof.
   intros terms y H. vm_compute in H. inversion H; subst. unfold lhs_guard. cbn [forallb ttype tname].
   destruct (String.eqb_spec "Y" y) as [<-|N]; reflexivity.
 Qed.
+
+(* the bracket counter also runs inside fenced blocks (only the opening fence line is skipped): a verbatim block whose
+   code holds an unbalanced "(" is not closed by its closing fence, and the script ends in a ParserError; a ")" raises at once *)
+Example fence_with_open_bracket_not_closed :
+  parse_model_nocheck (lines ["```"; "x = '('"; "```"; "Y = X"]) = PErr ParserError /\
+  final_state s0 (model_lines (lines ["```"; "x = '('"; "```"; "Y = X"])) = Some (mkS 1 true ["Y = X"; "```"; "x = '('"; "```"]).
+Proof. vm_compute. split; reflexivity. Qed.
+Example fence_with_close_bracket_raises : parse_model_nocheck (lines ["```"; "x = ')'"; "```"]) = PErr ParserError.
+Proof. vm_compute. reflexivity. Qed.
+Example fence_balanced_ok : n_statements (lines ["```"; "x = f(1)"; "```"; "Y = X"]) = 2.
+Proof. vm_compute. reflexivity. Qed.
+
+(* where the model is silent: the undecided instance has a stray "{", ordinary statements have none *)
+Example unmodelled_has_stray_brace : has_stray_open "Y = X + {[0]} + Z" = true.
+Proof. vm_compute. reflexivity. Qed.
+Example ordinary_no_stray_brace : forallb (fun st => negb (has_stray_open st)) (fst (split_M ordinary)) = true.
+Proof. vm_compute. reflexivity. Qed.
+(* the converse fails: a stray "{" is usually a plain ParserError (decided) *)
+Example stray_brace_decided : has_stray_open "Y = {0}" = true /\ parse_model_nocheck "Y = {0}" = PErr ParserError.
+Proof. vm_compute. split; reflexivity. Qed.
